@@ -21,11 +21,11 @@ func (c07) Rule() string {
 }
 func (c07) Assumptions() []string {
 	return []string{
-		"a duplicate registration may panic (default) or be dropped; only visibility of a second object is refuted; the silent-drop logger level is not exercised (prefix loggers are process-global)",
+		"a duplicate registration may panic (default log level) or be dropped silently (log level above Panic); only visibility of a second object is refuted; half of the worker processes run with a logger that does not panic, so both behaviours are exercised",
 	}
 }
-func (c07) mainCount(tier string) int     { return tierN(tier, 3000, 60000) }
-func (c07) dupCount(tier string) int      { return tierN(tier, 600, 8000) }
+func (c07) mainCount(tier string) int     { return tierN(tier, 3000, 300000) }
+func (c07) dupCount(tier string) int      { return tierN(tier, 600, 40000) }
 func (p c07) NumCases(tier string) int    { return p.mainCount(tier) + p.dupCount(tier) }
 func (c07) MinNontrivial(tier string) int { return tierN(tier, 500, 5000) }
 
@@ -146,6 +146,7 @@ func (p c07) dup(c *core.Ctx) {
 	}
 	c.Count("duplicate_attempts", dupAttempts)
 	c.Count("duplicate_rejected_by_panic", rejected)
+	c.Count("duplicate_dropped_silently", dupAttempts-rejected)
 	if dupAttempts > 0 {
 		c.Nontrivial(fmt.Sprintf("dup:%v", order2sig(len(order), dupAttempts, c.Index)))
 	}
@@ -175,8 +176,43 @@ func (p c07) dup(c *core.Ctx) {
 		}
 	}
 	// and through a whole start: the app must only ever see the first object of each name
-	sc := &world.Scenario{}
-	_ = sc
+	g := world.NewG(c.Rng)
+	a := g.AddNode(0, "dupname")
+	g.AddNode(2, "other")
+	h := g.AddNode(5, "holder")
+	g.SetTag(h, "IA0", "wire", "dupname")
+	g.SetTag(h, "SA0", "wire", "")
+	second := world.Palette[[]int{0, 1, 3}[c.Rng.Intn(3)]].New() // same or different type, same custom name
+	second.Core().Name = "dupname"
+	g.ShuffleOrders()
+	r := world.Start(g.Sc, world.Options{Extra: []any{second}})
+	c.Count("duplicate_app_starts", 1)
+	switch r.Outcome() {
+	case "panic":
+		if !containsStr(fmt.Sprint(r.Panic), "duplicate") {
+			c.Fail("", fmt.Sprintf("start with a duplicate registration panicked with an unrelated panic: %v", r.Panic), failDetail(g.Sc, r, nil))
+		}
+		c.Count("duplicate_app_start_rejected", 1)
+		return
+	case "ok":
+		first := any(r.Nodes[a])
+		got, err := r.App.GetComponentByName("dupname")
+		refs, _ := r.SlotRefs(r.Nodes[h], "IA0")
+		srefs, _ := r.SlotRefs(r.Nodes[h], "SA0")
+		if err != nil || got != first || refs[0].Obj != first {
+			c.Fail("", fmt.Sprintf("after a silently dropped duplicate, name 'dupname' resolves to %p / field holds %v, the first registered object is %p", got, refs[0], first), failDetail(g.Sc, r, nil))
+			return
+		}
+		for _, sr := range srefs {
+			if sr.Obj == any(second) {
+				c.Fail("", "the dropped duplicate object was injected into a slice", failDetail(g.Sc, r, nil))
+				return
+			}
+		}
+		c.Count("duplicate_app_start_dropped", 1)
+	default:
+		c.Fail("", "start with a duplicate registration: "+r.OutcomeDetail(), failDetail(g.Sc, r, nil))
+	}
 }
 
 func order2sig(a, b, c int) string { return fmt.Sprintf("%d/%d/%d", a, b, c) }
